@@ -147,7 +147,8 @@ def check_search_cases(ctx, cases, tmp, stats):
         mv = parse_val(mout) if mout.startswith("(") else None
         expected = [reference] + ([bz(mv[0][0])] if mv is not None and mv[0] != [] else [])
         # encoding_rs_io loses the tail of a U+FFFD flushed at EOF into a caller buffer of fewer than 4 bytes
-        truncated = c["capacity"] < 65536 and any(
+        # (multi-line: read_to_end hands the transcoder whatever spare capacity the Vec has, often < 4 bytes)
+        truncated = (c["capacity"] < 65536 or c["strategy"] >= 4) and any(
             len(e) >= 2 and (e[-1] & 0xC0) == 0x80 and searched in (e[:-1], e[:-2], e[:-3]) for e in expected)
         if truncated:
             cls = cls | {K_TRUNC}
@@ -287,12 +288,30 @@ def cli_cases(ctx, rng, cases, stats):
                     else:
                         ctx.violation("rg output on an encoded file (%s) differs from the output on its UTF-8 transcoding" % name,
                                       dict(kind="cli", case=repr(c), variant=name, out=repr(out[:500]), expected=repr(base[:500])))
-            # multi line: same matches as the transcoding under -U
-            rc1, o1 = run_rg(encflag + ["-U", "--no-mmap"] + pat + [enc_path], d)
-            rc2, o2 = run_rg(["-E", "none", "-U", "--no-mmap"] + pat + [ref_path], d)
-            if o1 != o2 and not cls:
-                ctx.violation("rg -U output on an encoded file differs from the output on its transcoding",
-                              dict(kind="cli", case=repr(c), out=repr(o1[:500]), expected=repr(o2[:500])))
+            # multi line with patterns that can match the terminator (MultiLine strategy: the whole file is read
+            # through the transcoder first): --mmap / --no-mmap / stdin / directory walk = search of the transcoding
+            wd = os.path.join(d, "w%d" % i)
+            os.mkdir(wd)
+            shutil.copy(enc_path, os.path.join(wd, "f"))
+            for mlpat in (["-e", "a\\nb"], ["-e", "\\n"], ["-e", "(?s)a.b"], pat):
+                rc2, o2 = run_rg(["-E", "none", "-U", "--no-mmap"] + mlpat + [ref_path], d)
+                for name, extra, target, stdin in (("mmap", ["--mmap"], [enc_path], None), ("no-mmap", ["--no-mmap"], [enc_path], None),
+                                                   ("stdin", [], [], enc_path), ("walk", ["--no-mmap"], [wd], None),
+                                                   ("walk-mmap", ["--mmap"], [wd], None)):
+                    rc1, o1 = run_rg(encflag + ["-U"] + extra + mlpat + target, d, stdin_path=stdin)
+                    stats["cli_runs_U"] += 1
+                    if o1 != o2:
+                        st = {"mmap": 6, "walk-mmap": 6, "stdin": 5}.get(name, 7)
+                        hv = parse_val(vlib.code(1702, [case_line(dict(c, strategy=st), d)])[0])
+                        hs, hr = bz(hv[0]), bz(hv[1])
+                        if hs != hr and hs in (hr[:-1], hr[:-2], hr[:-3]) and (hr[-1] & 0xC0) == 0x80:
+                            ctx.known(K_TRUNC, "rg -U on %r" % (c["input"][:40],))
+                        elif cls:
+                            for k in cls:
+                                ctx.known(k, "rg -U %s on %r" % (" ".join(encflag), c["input"][:40]))
+                        else:
+                            ctx.violation("rg -U %s (%s) on an encoded file differs from the output on its UTF-8 transcoding" % (mlpat[-1], name),
+                                          dict(kind="cli", case=repr(c), variant=name, pattern=mlpat[-1], out=repr(o1[:500]), expected=repr(o2[:500])))
     finally:
         shutil.rmtree(d, ignore_errors=True)
 
@@ -303,7 +322,7 @@ def gen_case(rng, big=False):
     label = rng.randint(0, 4)
     if mode == 1 and rng.random() < 0.6:
         label = {"u16le": 1, "u16be": 2, "u8bom": 0, "u8": 0, "latin1": 3, "sjis": 4, "raw": rng.randint(0, 4)}[kind]
-    return dict(mode=mode, label=label, input=inp, kind=kind, hist=gen_hist(rng, big), strategy=rng.randint(0, 3),
+    return dict(mode=mode, label=label, input=inp, kind=kind, hist=gen_hist(rng, big), strategy=rng.randint(0, 7),
                 capacity=rng.choice([1, 2, 3, 4, 7, 16, 64, 65536]), needle=rng.choice(NEEDLES))
 
 
@@ -320,8 +339,10 @@ def corpus():
         (0, 0, b"\xef\xbb\xbfa\xff\n"),               # malformed after a UTF-8 mark
         (1, 0, b"a\xff\n"), (1, 3, b"a\x80\x81\xe9\n"), (1, 4, b"\x82\xa0a\n\x81"),
         (1, 1, b"a\x00\n\x00\x00"), (1, 2, b"\xd8\x00\x00a"),
+        (0, 0, b"\xff\xfe" + "xa\nb\n".encode("utf-16-le")), (0, 0, b"\xfe\xff" + "a\nb".encode("utf-16-be")),
+        (0, 0, b"\xef\xbb\xbfa\nb\n"), (0, 0, b"\xef\xbb\xbf\n"),
     ]:
-        for strategy in range(4):
+        for strategy in range(8):
             for cap, hist in ((65536, []), (2, [1, 1, 1, 1, 1, 1]), (5, [3, 2])):
                 res.append(dict(mode=mode, label=label, input=inp, kind="corpus", hist=hist, strategy=strategy,
                                 capacity=cap, needle=b"a"))
@@ -341,14 +362,19 @@ def run(ctx):
             c = gen_case(rng)
             cases.append(c)
             for _ in range(rng.choice([0, 1, 2])):        # the same input another way
-                cases.append(dict(c, hist=gen_hist(rng, False), strategy=rng.randint(0, 3),
+                cases.append(dict(c, hist=gen_hist(rng, False), strategy=rng.randint(0, 7),
                                   capacity=rng.choice([1, 2, 3, 4, 7, 16, 64, 65536])))
         for _ in range(ctx.count(12)):
             c = gen_case(rng, big=True)
             cases.append(c)
-            cases.append(dict(c, hist=gen_hist(rng, True), strategy=rng.randint(0, 3), capacity=rng.choice([3, 64, 65536])))
+            cases.append(dict(c, hist=gen_hist(rng, True), strategy=rng.randint(0, 7), capacity=rng.choice([3, 64, 65536])))
         check_search_cases(ctx, cases, tmp, stats)
-        cli = [c for c in corpus()[::12]] + [gen_case(rng) for _ in range(ctx.count(25))] + [gen_case(rng, big=True) for _ in range(ctx.count(2))]
+        marked = []
+        for bom, codec in ((b"\xff\xfe", "utf-16-le"), (b"\xfe\xff", "utf-16-be"), (b"\xef\xbb\xbf", "utf-8")):
+            for text in ("xa\nb\n", "a\nb", "b\n\na\n", "\u65e5a\nb\U0001f600\n"):
+                marked.append(dict(mode=0, label=0, input=bom + text.encode(codec), kind="corpus", hist=[], strategy=0,
+                                   capacity=65536, needle=b"a"))
+        cli = marked + [c for c in corpus()[::24]] + [gen_case(rng) for _ in range(ctx.count(25))] + [gen_case(rng, big=True) for _ in range(ctx.count(2))]
         cli = [c for c in cli if b"\x00" not in c["needle"]]
         cli_cases(ctx, rng, cli, stats)
     finally:
